@@ -1,6 +1,6 @@
 (** C02 - operators group exactly by the documented precedence and associativity.
     Part 1 (generated facts, re-checked on every run): the built-in table dumped from the impl IS the documented table. *)
-From EE Require Import Chars OpTable Names ImplTable DocTable.
+From EE Require Import Chars OpTable Names Token Ast Parser ParserSteps GroupingSmall ImplTable DocTable.
 Open Scope N_scope.
 
 (* every row of README.md's BinaryExpression table is registered with that precedence; every registered infix operator is a
@@ -35,3 +35,47 @@ Theorem C02_table_wf :
   forallb (fun e => Z.leb 1 (ic_prec (snd e)) && Z.leb (ic_prec (snd e)) 1000000000) (t_infix builtin_table) = true.
 Proof. vm_compute. reflexivity. Qed.
 Print Assumptions C02_table_wf.
+
+(** Part 2: the grouping clauses on their minimal configurations - for ARBITRARY operator tables, operators and names
+    (symbolic execution of the parser model; the general case of arbitrarily large expressions is decided on each run by
+    the executable spec of the documented rules against impl and model). *)
+
+(* higher precedence binds first; equal precedence groups by the associativity of the first operator:
+   left-to-right for calculation operators, right-to-left for assignment operators *)
+Theorem C02_two_operators : forall tbl o1 o2 c1 c2 a b c, wf_infix tbl o1 c1 -> wf_infix tbl o2 c2 ->
+  let ts := [TRef a; TOp o1; TRef b; TOp o2; TRef c] in
+  let left := ABinary o2 (ABinary o1 (ARef a) (ARef b)) (ARef c) in
+  let right := ABinary o1 (ARef a) (ABinary o2 (ARef b) (ARef c)) in
+  ((ic_prec c2 < ic_prec c1)%Z -> parse_tokens tbl TmEof ts = Ok left) /\
+  ((ic_prec c1 < ic_prec c2)%Z -> parse_tokens tbl TmEof ts = Ok right) /\
+  (ic_prec c1 = ic_prec c2 -> ic_right c1 = false -> parse_tokens tbl TmEof ts = Ok left) /\
+  (ic_prec c1 = ic_prec c2 -> ic_right c1 = true -> parse_tokens tbl TmEof ts = Ok right).
+Proof. intros tbl o1 o2 c1 c2 a b c W1 W2. exact (two_ops_by_precedence tbl o1 o2 c1 c2 a b c W1 W2). Qed.
+Print Assumptions C02_two_operators.
+
+(* a prefix operator binds tighter than every infix operator *)
+Theorem C02_prefix_tighter_than_infix : forall tbl pre o1 c1 a b, is_prefix tbl pre = true -> wf_infix tbl o1 c1 ->
+  parse_tokens tbl TmEof [TOp pre; TRef a; TOp o1; TRef b] = Ok (ABinary o1 (AUnary pre (ARef a)) (ARef b)).
+Proof. exact prefix_tighter_than_infix. Qed.
+Print Assumptions C02_prefix_tighter_than_infix.
+
+(* a postfix operator binds tighter than a prefix one *)
+Theorem C02_postfix_tighter_than_prefix : forall tbl pre post a, is_prefix tbl pre = true -> is_postfix tbl post = true ->
+  parse_tokens tbl TmEof [TOp pre; TRef a; TOp post] = Ok (AUnary pre (APostfix (ARef a) post)).
+Proof. exact postfix_tighter_than_prefix. Qed.
+Print Assumptions C02_postfix_tighter_than_prefix.
+
+(* `x not OP y` means not(x OP y) *)
+Theorem C02_not_infix : forall tbl o1 c1 a b, punct_ok tbl -> wf_infix tbl o1 c1 ->
+  parse_tokens tbl TmEof [TRef a; TOp s_not; TOp o1; TRef b] = Ok (AUnary s_not (ABinary o1 (ARef a) (ARef b))).
+Proof. exact not_infix. Qed.
+Print Assumptions C02_not_infix.
+
+(* the hypotheses are met by the built-in table: every built-in infix operator is well-formed *)
+Theorem C02_builtins_wf :
+  forallb (fun e => negb (is_not (fst e)) && negb (str_eqb (fst e) s_qmark) && negb (is_postfix builtin_table (fst e))
+                    && Z.leb 1 (ic_prec (snd e))) (t_infix builtin_table) = true /\
+  infix_cfg_of builtin_table s_qmark = None /\ infix_cfg_of builtin_table s_colon = None /\ infix_cfg_of builtin_table s_not = None /\
+  is_postfix builtin_table s_qmark = false /\ is_postfix builtin_table s_colon = false /\ is_postfix builtin_table s_not = false.
+Proof. vm_compute. repeat split. Qed.
+Print Assumptions C02_builtins_wf.
